@@ -28,7 +28,7 @@ ASSUMPTIONS = ["rows of the training array are pairwise distinct so a batch row 
 
 
 def generate(rng):
-    cfg = sample_config(rng, n_range=(1, 17), max_iter_range=(1, 4))
+    cfg = sample_config(rng, n_range=(1, 17), max_iter_range=(1, 4), p_big=0.12)
     fam = FAMILIES[cfg["family"]]
     deco = None
     if cfg["n"] >= 2 and rng.random() < 0.35:
